@@ -173,6 +173,7 @@ class Nest:
 
         next_model = self._guided_model(enclosing)
         sx = SymEx(self.f, models=[next_model] + list(models), max_paths=max_paths, opaque=opaque, seq_sources=seq_sources)
+        sx.aliases = dict(getattr(self, 'aliases', None) or {})
         sx.loop_seq = {}
         names = params or {}
         from .sym import APP, NUM
@@ -217,6 +218,7 @@ class Nest:
         enclosing = [d for d in self.loops if bb in d['loop']['body']]
         next_model = self._guided_model(enclosing)
         sx = SymEx(self.f, models=[next_model] + list(models), max_paths=max_paths, opaque=opaque, seq_sources=seq_sources)
+        sx.aliases = dict(getattr(self, 'aliases', None) or {})
         sx.loop_seq = {}
         argv = [SYM(b.local_name(i) or 'arg%d' % i) for i in b.args()]
         sx.stop_blocks = {bb}
